@@ -6,14 +6,14 @@ package main
 
 import (
 	"fmt"
-	"math"
-	"time"
 	"go/ast"
 	"go/constant"
 	"go/token"
 	"go/types"
+	"math"
 	"sort"
 	"strings"
+	"time"
 
 	"golang.org/x/tools/go/packages"
 	"golang.org/x/tools/go/ssa"
@@ -34,26 +34,26 @@ type initVal struct {
 }
 
 type staticObj struct {
-	ref  uint64
-	T    types.Type
-	val  Val
-	pos  token.Pos
+	ref    uint64
+	T      types.Type
+	val    Val
+	pos    token.Pos
 	axioms []string
 }
 
 type staticMap struct {
-	mt   *types.Map
-	vals []string
-	pres string
+	mt      *types.Map
+	vals    []string
+	pres    string
 	strSids map[string]bool // constant strings stored as values (content axioms on demand)
 }
 
 type globalTables struct {
-	staticMaps map[uint64]*staticMap
-	info    map[*ssa.Global]*globalInfo
-	statics []*staticObj // objects created by &T{...} in global initialisers
-	staticAxioms map[string][]string // heap name -> axioms on the base heap
-	mutableTypes map[string]string   // struct key -> reason (some function stores to a field of this type)
+	staticMaps    map[uint64]*staticMap
+	info          map[*ssa.Global]*globalInfo
+	statics       []*staticObj        // objects created by &T{...} in global initialisers
+	staticAxioms  map[string][]string // heap name -> axioms on the base heap
+	mutableTypes  map[string]string   // struct key -> reason (some function stores to a field of this type)
 	typeSweepDone bool
 }
 
